@@ -265,6 +265,46 @@ func runC15(p *core.Prog, r *core.Report) {
 	c15R5(p, r, pats)
 	c15R6(p, r)
 	c15R7(p, r)
+	c15R8(p, r)
+}
+
+// c15R8Allowed: sites where clearing tag and digest together is what is meant, each confirmed by reading.
+var c15R8Allowed = map[string]string{
+	"scheme/reg.(*Reg).referrerListByAPIPage": "the reference only labels the manifest built from a referrers API response, whose digest is unknown and which has no tag",
+}
+
+// c15R8: SetDigest replaces the tag by the digest. Used with an empty string it clears both, which is
+// rarely what a caller that "removes the digest" wants: the tag the user gave is gone as well.
+func c15R8(p *core.Prog, r *core.Report) {
+	const rule = "C15.R8"
+	r.Rule(rule, "replacing the digest leaves the other components alone: Ref.SetDigest is not called with a constant empty string outside types/ref (it clears the tag too; the digest alone is cleared through the field) except at the sites listed with a reason", 1)
+	n := 0
+	for _, fn := range p.ModFuncs {
+		if len(fn.Blocks) == 0 {
+			continue
+		}
+		if pk := core.FuncPkg(fn); pk == nil || pk.Path() == modPath("types/ref") {
+			continue
+		}
+		lab := labeler{}
+		for _, c := range core.CallsTo(fn, func(f *types.Func) bool { return core.IsModMethod(f, "types/ref", "Ref", "SetDigest") }) {
+			sv, isC := core.ConstString(core.CallArg(c, 1))
+			if !isC || sv != "" {
+				continue
+			}
+			n++
+			fname := p.FuncName(fn)
+			key := strings.TrimSuffix(fname, fn.Name()) + canon(fn)
+			if why, ok := c15R8Allowed[key]; ok {
+				r.Held(rule, fname, lab.next("SetDigest(\"\")"), p.Pos(c.Pos()), "listed: "+why)
+				continue
+			}
+			r.Violated(rule, fname, lab.next("SetDigest(\"\")"), p.Pos(c.Pos()), "SetDigest(\"\") clears the tag together with the digest: a reference given as name:tag@digest comes out as name, which prints and parses as name:latest")
+		}
+	}
+	if n == 0 {
+		r.Held(rule, "module", "no SetDigest(\"\")", "-", "nothing clears tag and digest together")
+	}
 }
 
 // capture returns the sub-expression of capture group k.
